@@ -364,7 +364,12 @@ def forwards_cases(ctx, tier):
             break
         o = rnd.choice(outers)
         i = rnd.choice(inners)
+        if rnd.random() < 0.2:
+            i = sigs.pick_stratified(rnd, ('w', 'x', 'y', 'a'), 4, sigs.STARS2[:1])
         n = rnd.randint(0, min(3, len(i) + 1))
+        npo = sum(1 for p in i if p[1] == PO)
+        if npo >= 2 and rnd.random() < 0.4:
+            n = rnd.randint(1, npo - 1)     # the count ends strictly inside the positional-only group
         cand = [p[0] for p in i if p[1] in (PK, KO)] + [oracle.FOREIGN]
         names = tuple(rnd.sample(cand, rnd.randint(0, min(2, len(cand)))))
         kw = dict(use_varargs=rnd.random() < 0.8, use_varkwargs=rnd.random() < 0.8,
